@@ -31,7 +31,7 @@ def main():
     run = " ".join(sys.argv[4:])
     patch = os.path.join(wt, "mutant", "patch.diff")
     # normalise: start from a clean tree
-    sh("git checkout -- . && git clean -fdq -e mutant -e target", wt)
+    sh("git reset -q && git checkout -- . && git clean -fdq -e mutant -e target", wt)
     log = {}
 
     def install():
@@ -43,7 +43,7 @@ def main():
         return 0, ""
 
     def uninstall():
-        sh("git checkout -- . && git clean -fdq -e mutant -e target", wt)
+        sh("git reset -q && git checkout -- . && git clean -fdq -e mutant -e target", wt)
 
     # 1. clean
     log["clean_suite"] = suite(wt)
